@@ -25,13 +25,17 @@ pub fn parse_char_list(input: &str) -> Result<String, DataError> {
         return Ok(new);
     }
 
-    let real_len = input.len() - start_quote_count * 2;
+    // quotes are single bytes, so the content is the text between the opening and closing runs
+    let content = match input.len().checked_sub(start_quote_count).and_then(|end| input.get(start_quote_count..end)) {
+        Some(content) => content,
+        None => Err(DataError::from(format!("Unbalanced quotes in character list {:?}", input)))?,
+    };
 
     let mut check_escape = false;
     let mut in_unicode = false;
     let mut unicode_characters = String::new();
 
-    for c in input.chars().skip(start_quote_count).take(real_len) {
+    for c in content.chars() {
         if in_unicode {
             if c == '}' {
                 match parse_number_internal(unicode_characters.as_str(), 16)? {
@@ -100,13 +104,21 @@ pub fn parse_byte_list(input: &str) -> Result<Vec<u8>, DataError> {
         }
     }
 
-    let real_len = input.len() - start_quote_count * 2;
+    if start_quote_count == input.len() {
+        return Ok(bytes);
+    }
+
+    // quotes are single bytes, so the content is the text between the opening and closing runs
+    let content = match input.len().checked_sub(start_quote_count).and_then(|end| input.get(start_quote_count..end)) {
+        Some(content) => content,
+        None => Err(DataError::from(format!("Unbalanced quotes in byte list {:?}", input)))?,
+    };
 
     if start_quote_count >= 2 {
-        parse_byte_list_numbers(&input[start_quote_count..(input.len() - start_quote_count)])
+        parse_byte_list_numbers(content)
     } else {
         let mut check_escape = false;
-        for c in input.chars().skip(start_quote_count).take(real_len) {
+        for c in content.chars() {
             if check_escape {
                 match c {
                     'n' => bytes.push('\n' as u8),
